@@ -24,7 +24,7 @@ func TestC17(t *testing.T) {
 	mon.Main(t, mon.Check{
 		ID:          "C17",
 		Level:       "exploration",
-		Rule:        "(M) mnemonic codec: for PRNG 14-byte entropies (plus boundary patterns: all zero, all one, leading zero bytes, single bits) the real PassphraseEntropyToMnemonic / PassphraseMnemonicToEntropy are compared with an independent big-endian 11-bit packer over aezeed's word list: M2E(E2M(e)) == e with the last two bits cleared; E2M(M2E(w)) == w for PRNG word vectors and vectors containing the first and the last list word in every position; NewPassphraseEntropy returns a fixed point. (S) session identifiers through the real ConnData.SID and GetSID: both parties derive the same SID from the same passphrase; after pairing SID(local=a, remote=B) == SID(local=b, remote=A); send/receive stream ids differ exactly in the last bit and the client's send stream is the server's receive stream; distinct secrets (PRNG pairs, single-bit neighbours, swapped roles with a third key) give distinct SIDs. (R) real ClientConn / ServerConn over the in-memory relay: client LocalAddr == server RemoteAddr and vice versa, the two differ in the last bit only, and the stream ids the relay saw (boxes created, streams opened) are exactly those two. Non-trivial = every case (each checks hundreds of values); distinct = (kind, slice).",
+		Rule:        "(M) mnemonic codec: for PRNG 14-byte entropies (plus boundary patterns: all zero, all one, leading zero bytes, single bits) the real PassphraseEntropyToMnemonic / PassphraseMnemonicToEntropy are compared with an independent big-endian 11-bit packer over aezeed's word list: M2E(E2M(e)) == e with the last two bits cleared; E2M(M2E(w)) == w for PRNG word vectors and vectors containing the first and the last list word in every position; NewPassphraseEntropy returns a fixed point. (S) session identifiers through the real ConnData.SID and GetSID: both parties derive the same SID from the same passphrase; after pairing SID(local=a, remote=B) == SID(local=b, remote=A); send/receive stream ids differ exactly in the last bit and the client's send stream is the server's receive stream; distinct secrets (PRNG pairs, single-bit neighbours, swapped roles with a third key) give distinct SIDs. (R) real ClientConn / ServerConn over the in-memory relay: client LocalAddr == server RemoteAddr and vice versa, the two differ in the last bit only, and the stream ids the relay saw (boxes created, streams opened) are exactly those two. (L) life cycle of one ConnData: after it derived the passphrase SID, SetRemote(key) makes it name the SID that a party starting with that stored key derives, and again after the key is replaced. (F) callback faults: remote-key callback failing in a key-based handshake; auth-data callback failing once in a first pairing - afterwards both parties must name the same rendezvous and pattern. Non-trivial = every case (each checks hundreds of values); distinct = (kind, slice).",
 		Assumptions: []string{"'different secrets give different identifiers' is decided over the sample (no collision observed), not proved"},
 		NCases: func(tier string) int {
 			if tier == "thorough" {
